@@ -39,7 +39,9 @@ def _drive(acc, n):
     trace = os.path.join(core.BUILD, "C16_drive.ndjson")
     cases = os.path.join(core.BUILD, "C16_drive.cases")
     out = os.path.join(core.BUILD, "C16_drive.report.json")
-    core.run_vh(["drive-repl", "--n", str(n), "--trace", trace, "--cases", cases, "--out", out], timeout=6000)
+    scope = os.path.join(core.BUILD, "C16_scope.ndjson")
+    core.run_vh(["drive-repl", "--n", str(n), "--trace", trace, "--cases", cases, "--out", out, "--scope-trace", scope], timeout=6000)
+    acc.violations += core.scope_validate(acc, scope, "C16", closed_only_unbound=True)
     rep = core.load_json(out)
     res = core.trace_validate(acc, "Trace_Repl", "Trace_Repl.cfg", trace, "Trace_Repl", timeout=3000)
     cs = [json.loads(l) for l in open(cases)]
